@@ -183,6 +183,14 @@ func (r *rewriter) post(c *astutil.Cursor) bool {
 			c.Replace(&ast.SelectorExpr{X: ast.NewIdent(vfsName), Sel: n.Sel})
 			return true
 		}
+		if r.isPkg(n.X, "context") && (n.Sel.Name == "WithTimeout" || n.Sel.Name == "WithDeadline") {
+			// a time limit the library gives itself runs on the virtual clock
+			r.stats["ctxdeadline"]++
+			r.needVtime = true
+			r.changed = true
+			c.Replace(&ast.SelectorExpr{X: ast.NewIdent(vtimeName), Sel: n.Sel})
+			return true
+		}
 		if r.isPkg(n.X, "time") {
 			switch n.Sel.Name {
 			case "Now", "Since", "Until", "Sleep", "After", "NewTimer", "Timer":
